@@ -182,8 +182,12 @@ def packBlock (env : Env) (blk : AuthBlock) (sk : Bytes) (ext : List Encryptor) 
     let e ← selectEncryptor .cust ext none none
     encEncrypt env e (Gen.CUSTOMER_KEY_PLACEHOLDER ++ sk) ephs
   | .initEcc sel => do
-    -- the fallback `EccEncryptor()` is constructed eagerly: default key of selector 0
-    let e ← selectEncryptor .ecc ext (some (.eccPub 0 (Gen.DEFAULT_PUBLIC_KEY_0.drop 27))) (some sel)
+    -- the fallback `EccEncryptor(self.key_selector)` is constructed eagerly:
+    -- `DEFAULT_PUBLIC_KEYS[key_selector]` raises KeyError for an unknown selector
+    let fb ← match Gen.DEFAULT_PUBLIC_KEYS.lookup sel with
+      | some der => pure (Encryptor.eccPub sel (der.drop 27))
+      | none => throw Err.keyError
+    let e ← selectEncryptor .ecc ext (some fb) (some sel)
     let sb ← toBytesBE 1 sel
     let (c, ephs') ← encEncrypt env e sk ephs
     pure (sb ++ c, ephs')
@@ -250,6 +254,17 @@ def unpackBlocks (env : Env) (ext : List Encryptor) :
         | some c => if sk != c then .error .formatBec2
                     else unpackBlocks env ext fuel r3 (acc ++ [blk]) (some sk) (used + 2 + len)
         | none => unpackBlocks env ext fuel r3 (acc ++ [blk]) (some sk) (used + 2 + len)
+
+/-- `Bec2File.__init__`: `session_key or random_bytes(16)`; the random stream is an oracle input -/
+def initKey (sk : Option Bytes) (ρ : Bytes) : Bytes × Bytes :=
+  match sk with
+  | some k => if k.isEmpty then (ρ.take 16, ρ.drop 16) else (k, ρ)
+  | none => (ρ.take 16, ρ.drop 16)
+
+/-- `n` successive constructions without a supplied key -/
+def drawKeys : Nat → Bytes → List Bytes × Bytes
+  | 0, ρ => ([], ρ)
+  | n+1, ρ => let (k, ρ') := initKey none ρ; let (ks, ρ'') := drawKeys n ρ'; (k :: ks, ρ'')
 
 structure File where
   comps : List Comp
